@@ -9,10 +9,12 @@ func configure(g *gen) {
 			{"status", "int", "status", tInt},
 			{"length", "int", "length", tInt},
 		}, Extra: []string{"log : List GoRt.WEv := []"}},
-		{Go: "Context", Lean: "Ctx", Fields: []FieldSpec{
+		// `ghost` is not a field of the Go struct: it lets an instantiation of the handler-call parameter of
+		// `Next` keep a record (e.g. the trace of handler events) next to the context
+		{Go: "Context", Lean: "Ctx", Params: "(γ : Type)", LeanT: "Ctx γ", Fields: []FieldSpec{
 			{"index", "int8", "index", tInt8},
 			{"writer", "responseWriter", "writer", T{"struct", "RW"}},
-		}, Extra: []string{"nHandlers : Int := 0"}},
+		}, Extra: []string{"handlers : List Unit := []", "ghost : γ"}},
 		{Go: "Router", Lean: "Router", Fields: []FieldSpec{
 			{"strictLastSlash", "bool", "strictLastSlash", tBool},
 			{"interceptAll", "string", "interceptAll", tStr},
@@ -24,6 +26,8 @@ func configure(g *gen) {
 	}
 	g.opaque["error"] = T{"opaque", "Bool"} // true = a non-nil error
 	g.opaque["http.ResponseWriter"] = T{"opaque", "Unit"}
+	g.opaque["rux.Route"] = T{"opaque", "Option ρ"}  // *Route: nil or a route of the abstract type ρ
+	g.opaque["rux.Params"] = T{"opaque", "Option π"} // Params (a map): nil or a value of the abstract type π
 	g.globalExts = []Ext{
 		{Callee: "debugPrint", Ignore: true},
 	}
@@ -35,6 +39,19 @@ func configure(g *gen) {
 	add(FnSpec{Func: "quotePointChar", Lean: "quotePointChar"})
 	// router.go
 	add(FnSpec{Recv: "Router", Func: "formatPath", Lean: "Router.formatPath"})
+	// parse_match.go: the decision list of QuickMatch over abstract lookups.  `r.match`, `r.findAllowedMethods`
+	// and the static table are operations of an environment over an abstract state σ (the route cache changes
+	// when a dynamic route is matched), threaded in call order.
+	add(FnSpec{Recv: "Router", Func: "QuickMatch", Lean: "Router.QuickMatch",
+		Extra:    []string{"{σ ρ π : Type}", "(env : GoRt.QMEnv σ ρ π)", "(s0 : σ)"},
+		Prologue: []string{"let mut s := s0"}, RetExtra: []string{"s"}, RetExtraT: []string{"σ"},
+		Exts: []Ext{
+			{Callee: "$.match", Stmts: []string{"let %t := env.match_ s %1 %2", "s := %t.2"},
+				Values: []string{"%t.1.1", "%t.1.2"}, Ts: []T{{"opaque", "Option ρ"}, {"opaque", "Option π"}}},
+			{Callee: "$.findAllowedMethods", Stmts: []string{"let %t := env.findAllowed s %1 %2", "s := %t.2"},
+				Value: "%t.1", T: tStrList},
+			{Callee: "$.stableRoutes[]", Value: "(env.stable s %1)", T: T{"opaque", "Option ρ"}},
+		}})
 	// response_wirter.go
 	add(FnSpec{Recv: "responseWriter", Func: "reset", Lean: "RW.reset", Exts: []Ext{
 		// w.Writer = w2: a new underlying writer, nothing has reached it yet
@@ -58,6 +75,15 @@ func configure(g *gen) {
 	// context.go
 	add(FnSpec{Recv: "Context", Func: "Abort", Lean: "Ctx.Abort"})
 	add(FnSpec{Recv: "Context", Func: "IsAborted", Lean: "Ctx.IsAborted"})
+	// Next: the handler call `c.handlers[c.index](c)` is a parameter (`call fuel i c` = run handler i on c, with
+	// `fuel` left for the Next() calls the handler makes; an index out of range is its panic, `none` = the
+	// handler ran out of fuel)
+	add(FnSpec{Recv: "Context", Func: "Next", Lean: "Ctx.Next",
+		Extra: []string{"(call : Nat → Int → Ctx γ → Except Panic (Option (Ctx γ)))"},
+		Exts: []Ext{
+			{Callee: "$.handlers[c.index]", Stmts: []string{"let some %t ← call fuel $.index $ | return none", "$ := %t"}, MayPanic: true},
+			{Callee: "$.handlers", Value: "$.handlers", T: T{"opaque", "List Unit"}},
+		}})
 	add(FnSpec{Recv: "Context", Func: "SetStatus", Lean: "Ctx.SetStatus"})
 	add(FnSpec{Recv: "Context", Func: "StatusCode", Lean: "Ctx.StatusCode"})
 	add(FnSpec{Recv: "Context", Func: "Length", Lean: "Ctx.Length"})
